@@ -294,6 +294,7 @@ def _execute(sc, store):
     if any(f.get("glob") and gmod.get(f["glob"]) != f["mod"] for f in sc["funcs"]):
         bump("shape_function_uses_imported_global")
 
+    alive = []  # programs linked earlier in this scenario: (program, its observation, description)
     variants = {}  # module -> variant of the latest stored compile (current generation)
     inmem = {}  # module -> IR module object of the latest compile
     cur_gen = None
@@ -534,6 +535,22 @@ def _execute(sc, store):
                     f"single={refobs[k] if k is not None and k < len(refobs) else refobs[-1]!r}",
                     finding_key="behaviour" + ("-gen2" if gen > 0 else "") + ("-recompiled" if variants else ""),
                 )
+            # a program linked earlier (from the same module objects, against an older state of
+            # the store) is a value of its own: linking another program must not change it
+            for oprog, oobs, odesc in alive[-2:]:
+                again = _observe(oprog, sc)
+                bump("earlier_programs_reobserved")
+                if not _flat_equal(again, oobs):
+                    k = next((i for i, (x, y) in enumerate(zip(again, oobs)) if not _flat_equal(x, y)), None)
+                    return done(
+                        "violation",
+                        "earlier-program-changed",
+                        f"after linking add={names_add} the program linked earlier ({odesc}) behaves differently at "
+                        f"history step {k}: now {again[k] if k is not None and k < len(again) else again[-1]!r}, before "
+                        f"{oobs[k] if k is not None and k < len(oobs) else oobs[-1]!r}",
+                        finding_key="earlier-program-changed",
+                    )
+            alive.append((prog, obs, f"add={names_add}, generation {gen}, variants {dict(variants)}"))
             can = _canonical(prog)
             ck = "state"
             if ck in canon_by_state:
